@@ -5,6 +5,7 @@ import (
 	"errors"
 	"fmt"
 	"go/types"
+	"math"
 	"path/filepath"
 	"strconv"
 
@@ -24,6 +25,11 @@ type instState struct {
 }
 
 var errScripted = errors.New("scripted generator failure")
+
+// ordinary failures whose message merely ends in the text of a sentinel error: they are errors
+// like any other (only ErrSkip / ErrIgnore themselves, possibly wrapped, are swallowed)
+var errTexts = []string{"scripted generator failure (injected)", "unsupported value for +gengo:mode: ignore", "cannot handle this type, would have to skip",
+	"ignore", "skip", "validation failed: skip"}
 
 // core implements the scripted behaviour shared by all generator types.
 type core struct {
@@ -78,9 +84,20 @@ func (g *core) render(c gengo.Context, parts []proto.Part) {
 		case p.Ref != "":
 			c.Render(snippet.ID(p.Ref))
 		case p.Value != "":
-			m := map[string]int{}
-			_ = json.Unmarshal([]byte(p.Value), &m)
-			c.Render(snippet.Value(m))
+			switch p.Value {
+			case "float-keys":
+				c.Render(snippet.Value(map[float64]int{2: 1, 10: 2, 12.5: 3, 1.5: 4, 100: 5, 20: 6}))
+			case "uint-keys":
+				c.Render(snippet.Value(map[uint64]int{1: 1, 20: 2, 3: 3, math.MaxUint64: 4, 9223372036854775808: 5}))
+			case "int-keys":
+				c.Render(snippet.Value(map[int]string{10: "a", 9: "b", -1: "c", 100: "d", 2: "e"}))
+			case "bool-keys":
+				c.Render(snippet.Value(map[bool]int{true: 1, false: 0}))
+			default:
+				m := map[string]int{}
+				_ = json.Unmarshal([]byte(p.Value), &m)
+				c.Render(snippet.Value(m))
+			}
 		default:
 			c.Render(snippet.Block(p.Text))
 		}
@@ -106,7 +123,7 @@ func (g *core) apply(c gengo.Context, kind string, obj *types.TypeName, rules ma
 		var m map[string]int
 		m["injected panic in generator"] = 1
 	case actGenError:
-		return fmt.Errorf("%w (injected)", errScripted)
+		return errors.New(errTexts[st.seen%len(errTexts)])
 	case actGenUnparseable:
 		c.Render(snippet.Block("\nfunc ( {{{ unparseable\n"))
 		return nil
